@@ -6,6 +6,12 @@ ALL = ["C%02d" % i for i in range(1, 21)]
 
 WRAP_NOTE = "Shaped runs are synthetic (generator asserts the shaper output contract); break opportunities come from the segmenter (C06). Negative letter spacing is checked for conservation only (measure not monotone)."
 CHECKS = {
+ "C15": dict(
+   level="exploration",
+   text="Complete enumeration of candidate multisets of size 1 and 2 over the 396-aspect grid (9 stretches x 2 styles x 22 weights) crossed with all 690 queries (grid + unset fields), and of size 3 over a sub-grid, through fontSet.retainsBestMatches (verif hook), compared with a direct transcription of CSS Fonts 3 section 5.2.",
+   note="Reference written from the CSS text; oblique == italic in this library. Sizes > 3 are not enumerated (the three search orders only compare a candidate with the request and with the best so far).",
+   technique="exhaustive enumeration of a finite grid against a reference model (E1)",
+   design="1/C15 + Appendix B", engine="E1 enum"),
  "C06": dict(
    level="exploration",
    text="Every string up to the tier's length over rule-class alphabets computed from the library's own lookups (49 line, 21 grapheme, 29 word and 127 joint signatures) is segmented by one long-lived Segmenter per shard and compared boundary by boundary (line incl. mandatory, grapheme, word segments) with a declarative evaluation of the UAX#14/#29 rule lists; all ordered reuse pairs of short strings with partially drained iterators.",
@@ -88,7 +94,7 @@ def main():
     json.dump(m, open("/verif/MANIFEST.json", "w"), indent=1)
     print("wrote MANIFEST.json with", len(checks), "checks")
 
-HOOK_COMMITS = []
+HOOK_COMMITS = ["1ac8438"]
 NA = {}
 
 if __name__ == "__main__":
